@@ -25,11 +25,13 @@ func (c *verifNullConn) AcceptStream(ctx context.Context) (transport.Stream, err
 	<-ctx.Done()
 	return nil, ctx.Err()
 }
-func (c *verifNullConn) Close() error                           { return nil }
-func (c *verifNullConn) LocalAddr() net.Addr                    { return &net.TCPAddr{} }
-func (c *verifNullConn) RemoteAddr() net.Addr                   { return &net.TCPAddr{} }
-func (c *verifNullConn) IsDialer() bool                         { return c.dialer }
-func (c *verifNullConn) TransportType() transport.TransportType { return transport.TransportType("verif") }
+func (c *verifNullConn) Close() error         { return nil }
+func (c *verifNullConn) LocalAddr() net.Addr  { return &net.TCPAddr{} }
+func (c *verifNullConn) RemoteAddr() net.Addr { return &net.TCPAddr{} }
+func (c *verifNullConn) IsDialer() bool       { return c.dialer }
+func (c *verifNullConn) TransportType() transport.TransportType {
+	return transport.TransportType("verif")
+}
 
 // VerifNewConnection builds a connected Connection to remoteID whose outgoing
 // frames are encoded onto w. There is no handshake and no read loop: the
